@@ -51,18 +51,25 @@ enum Bop {
     Store(usize, u32),
     Force(usize),
     Yield,
+    /// resume the coroutine with this label
+    Resume(usize),
+    /// spawn a coroutine (label = position of the spawn in the program text, pre-order)
+    Spawn(usize, Vec<Bop>),
 }
 #[derive(Clone, Debug, PartialEq)]
 enum Op {
     B(Bop),
     Ref(u32),
     Lazy(LBody),
-    Spawn(Vec<Bop>),
-    Resume(usize),
 }
 
-fn bop_text(b: &Bop) -> String {
+fn body_text(body: &[Bop]) -> String {
+    body.iter().map(|b| bop_text(b, false)).collect::<Vec<_>>().join(",")
+}
+fn bop_text(b: &Bop, top: bool) -> String {
     match b {
+        Bop::Resume(t) => format!("u{}", t),
+        Bop::Spawn(_, body) => if top { format!("t={}", body_text(body)) } else { format!("t[{}]", body_text(body)) },
         Bop::Send(c, v) => format!("s{}.{}", c, v),
         Bop::Recv(c) => format!("r{}", c),
         Bop::Load(r) => format!("g{}", r),
@@ -73,7 +80,7 @@ fn bop_text(b: &Bop) -> String {
 }
 fn op_text(o: &Op) -> String {
     match o {
-        Op::B(b) => bop_text(b),
+        Op::B(b) => bop_text(b, true),
         Op::Ref(v) => format!("n{}", v),
         Op::Lazy(b) => {
             let r = match &b.res {
@@ -86,15 +93,37 @@ fn op_text(o: &Op) -> String {
                 None => format!("l{}", r),
             }
         }
-        Op::Spawn(body) => format!("t={}", body.iter().map(bop_text).collect::<Vec<_>>().join(",")),
-        Op::Resume(t) => format!("u{}", t),
     }
 }
 fn case_text(ops: &[Op]) -> String {
     ops.iter().map(op_text).collect::<Vec<_>>().join(" ")
 }
 
-fn parse_bop(s: &str) -> Result<Bop, String> {
+fn split_top(s: &str) -> Vec<&str> {
+    let mut parts = vec![];
+    if s.is_empty() {
+        return parts;
+    }
+    let (mut depth, mut start) = (0i32, 0usize);
+    for (i, c) in s.char_indices() {
+        match c {
+            '[' => depth += 1,
+            ']' => depth -= 1,
+            ',' if depth == 0 => {
+                parts.push(&s[start..i]);
+                start = i + 1;
+            }
+            _ => {}
+        }
+    }
+    parts.push(&s[start..]);
+    parts
+}
+/// `labels` is the number of spawns seen so far in the text: the label of the next one.
+fn parse_bop(s: &str, labels: &mut usize) -> Result<Bop, String> {
+    if s.is_empty() {
+        return Err("empty operation".into());
+    }
     let (h, rest) = s.split_at(1);
     let num = |x: &str| x.parse::<usize>().map_err(|_| format!("bad number in `{}`", s));
     let two = |x: &str| -> Result<(usize, u32), String> {
@@ -114,10 +143,30 @@ fn parse_bop(s: &str) -> Result<Bop, String> {
         }
         "f" => Bop::Force(num(rest)?),
         "y" => Bop::Yield,
+        "u" => Bop::Resume(num(rest)?),
+        "t" => {
+            let inner = if let Some(x) = rest.strip_prefix('=') {
+                x
+            } else if rest.len() >= 2 && rest.starts_with('[') && rest.ends_with(']') {
+                &rest[1..rest.len() - 1]
+            } else {
+                return Err(format!("bad spawn `{}`", s));
+            };
+            let lab = *labels;
+            *labels += 1;
+            let mut body = vec![];
+            for x in split_top(inner) {
+                body.push(parse_bop(x, labels)?);
+            }
+            Bop::Spawn(lab, body)
+        }
         _ => return Err(format!("bad basic op `{}`", s)),
     })
 }
-fn parse_op(s: &str) -> Result<Op, String> {
+fn parse_op(s: &str, labels: &mut usize) -> Result<Op, String> {
+    if s.is_empty() {
+        return Err("empty operation".into());
+    }
     let (h, rest) = s.split_at(1);
     let num = |x: &str| x.parse::<usize>().map_err(|_| format!("bad number in `{}`", s));
     Ok(match h {
@@ -138,43 +187,71 @@ fn parse_op(s: &str) -> Result<Op, String> {
             };
             Op::Lazy(LBody { bump, res })
         }
-        "t" => {
-            if !rest.starts_with('=') {
-                return Err(format!("bad spawn `{}`", s));
-            }
-            let b = &rest[1..];
-            let mut body = vec![];
-            if !b.is_empty() {
-                for x in b.split(',') {
-                    body.push(parse_bop(x)?);
-                }
-            }
-            Op::Spawn(body)
-        }
-        "u" => Op::Resume(num(rest)?),
-        _ => Op::B(parse_bop(s)?),
+        _ => Op::B(parse_bop(s, labels)?),
     })
 }
 fn parse_case(s: &str) -> Result<Vec<Op>, String> {
-    s.split_whitespace().filter(|t| *t != "fixed" && *t != "faithful").map(parse_op).collect()
+    let mut labels = 0usize;
+    s.split_whitespace().filter(|t| *t != "fixed" && *t != "faithful").map(|t| parse_op(t, &mut labels)).collect()
 }
 
-/// Static scope (what a Gluon closure can mention): counts of references, lazies, threads.
-#[derive(Clone, Copy, Default, Debug)]
+/// Static scope (what a Gluon closure can mention): counts of references and lazies, the labels
+/// of the coroutines whose handle is lexically visible, the next unused label.
+#[derive(Clone, Default, Debug)]
 struct Scope {
     nr: usize,
     nl: usize,
-    nt: usize,
+    vis: Vec<usize>,
+    next: usize,
 }
 const NCHAN: usize = 2;
 
-fn bop_ok(b: &Bop, sc: Scope) -> bool {
-    match b {
-        Bop::Send(c, _) | Bop::Recv(c) => *c < NCHAN,
-        Bop::Load(r) | Bop::Store(r, _) => *r < sc.nr,
-        Bop::Force(l) => *l < sc.nl,
-        Bop::Yield => true,
+fn max_label(body: &[Bop]) -> Option<usize> {
+    let mut m = None;
+    for b in body {
+        if let Bop::Spawn(l, inner) = b {
+            m = m.max(Some(*l)).max(max_label(inner));
+        }
     }
+    m
+}
+
+/// Lexical scoping of a sequence of basic operations: a handle is visible after its `spawn`, to
+/// the rest of that body and to every closure created there afterwards.
+fn body_ok(body: &[Bop], nr: usize, nl: usize, vis: &[usize]) -> bool {
+    let mut vis = vis.to_vec();
+    for b in body {
+        match b {
+            Bop::Send(c, _) | Bop::Recv(c) => {
+                if *c >= NCHAN {
+                    return false;
+                }
+            }
+            Bop::Load(r) | Bop::Store(r, _) => {
+                if *r >= nr {
+                    return false;
+                }
+            }
+            Bop::Force(l) => {
+                if *l >= nl {
+                    return false;
+                }
+            }
+            Bop::Yield => {}
+            Bop::Resume(t) => {
+                if !vis.contains(t) {
+                    return false;
+                }
+            }
+            Bop::Spawn(lab, inner) => {
+                if !body_ok(inner, nr, nl, &vis) {
+                    return false;
+                }
+                vis.push(*lab);
+            }
+        }
+    }
+    true
 }
 /// Is the sequence a Gluon program (every name bound when it is mentioned)?
 fn well_scoped(ops: &[Op]) -> bool {
@@ -182,8 +259,11 @@ fn well_scoped(ops: &[Op]) -> bool {
     for o in ops {
         match o {
             Op::B(b) => {
-                if !bop_ok(b, sc) {
+                if !body_ok(std::slice::from_ref(b), sc.nr, sc.nl, &sc.vis) {
                     return false;
+                }
+                if let Bop::Spawn(lab, _) = b {
+                    sc.vis.push(*lab);
                 }
             }
             Op::Ref(_) => sc.nr += 1,
@@ -200,20 +280,34 @@ fn well_scoped(ops: &[Op]) -> bool {
                 }
                 sc.nl += 1
             }
-            Op::Spawn(body) => {
-                if !body.iter().all(|b| bop_ok(b, sc)) {
-                    return false;
-                }
-                sc.nt += 1
-            }
-            Op::Resume(t) => {
-                if *t >= sc.nt {
-                    return false;
-                }
-            }
         }
     }
     true
+}
+
+/// Renames the coroutine labels to the positions of the spawns in the text (pre-order).
+fn normalize_labels(ops: &mut [Op]) {
+    fn go(body: &mut [Bop], map: &mut std::collections::HashMap<usize, usize>, next: &mut usize) {
+        for b in body.iter_mut() {
+            match b {
+                Bop::Resume(t) => *t = *map.get(t).expect("resume of a label that is not in scope"),
+                Bop::Spawn(lab, inner) => {
+                    map.insert(*lab, *next);
+                    *lab = *next;
+                    *next += 1;
+                    go(inner, map, next);
+                }
+                _ => {}
+            }
+        }
+    }
+    let mut map = std::collections::HashMap::new();
+    let mut next = 0usize;
+    for o in ops.iter_mut() {
+        if let Op::B(b) = o {
+            go(std::slice::from_mut(b), &mut map, &mut next);
+        }
+    }
 }
 
 // ---------------------------------------------------------------------------------------
@@ -306,19 +400,30 @@ let io_flat_map f m : (a -> IO b) -> IO a -> IO b = flat_map f m
 
 const HEADER: &str = "//@NO-IMPLICIT-PRELUDE\nlet { channel, ref, load, lazy, force, spawn, wrap, flat_map, knot, boom, inc, log, op_send, op_recv, op_load, op_store, op_force, op_yield, op_resume, bump } = import! c17lib\ndo { sender = s0, receiver = q0 } = channel 0\ndo { sender = s1, receiver = q1 } = channel 0\ndo lg = ref \"\"\n";
 
-fn bop_src(b: &Bop, tid: usize, indent: &str, out: &mut String) {
-    let line = match b {
-        Bop::Send(c, v) => format!("op_send lg {} s{} {}", tid, c, v),
-        Bop::Recv(c) => format!("op_recv lg {} q{}", tid, c),
-        Bop::Load(r) => format!("op_load lg {} r{}", tid, r),
-        Bop::Store(r, v) => format!("op_store lg {} r{} {}", tid, r, v),
-        Bop::Force(l) => format!("op_force lg {} l{}", tid, l),
-        Bop::Yield => format!("op_yield lg {}", tid),
-    };
-    out.push_str(indent);
-    out.push_str("do _ = ");
-    out.push_str(&line);
-    out.push('\n');
+/// The operations of thread `tid` (0 = main program), one `do` line each, at column `indent`.
+fn body_src(body: &[Bop], tid: usize, indent: usize, out: &mut String) {
+    let pad = " ".repeat(indent);
+    for b in body {
+        let line = match b {
+            Bop::Send(c, v) => format!("op_send lg {} s{} {}", tid, c, v),
+            Bop::Recv(c) => format!("op_recv lg {} q{}", tid, c),
+            Bop::Load(r) => format!("op_load lg {} r{}", tid, r),
+            Bop::Store(r, v) => format!("op_store lg {} r{} {}", tid, r, v),
+            Bop::Force(l) => format!("op_force lg {} l{}", tid, l),
+            Bop::Yield => format!("op_yield lg {}", tid),
+            Bop::Resume(t) => format!("op_resume lg {} t{}", tid, t),
+            Bop::Spawn(lab, inner) => {
+                out.push_str(&format!("{}do t{} = spawn (\n", pad, lab));
+                body_src(inner, lab + 1, indent + 8, out);
+                out.push_str(&format!("{}        wrap ()\n{}    )\n", pad, pad));
+                format!("log lg {} \"n\"", tid)
+            }
+        };
+        out.push_str(&pad);
+        out.push_str("do _ = ");
+        out.push_str(&line);
+        out.push('\n');
+    }
 }
 
 fn lazy_src(b: &LBody, own: usize) -> String {
@@ -341,7 +446,7 @@ fn program(ops: &[Op]) -> String {
     let mut sc = Scope::default();
     for o in ops {
         match o {
-            Op::B(b) => bop_src(b, 0, "", &mut s),
+            Op::B(b) => body_src(std::slice::from_ref(b), 0, 0, &mut s),
             Op::Ref(v) => {
                 s.push_str(&format!("do r{} = ref {}\ndo _ = log lg 0 \"n\"\n", sc.nr, v));
                 sc.nr += 1;
@@ -350,15 +455,6 @@ fn program(ops: &[Op]) -> String {
                 s.push_str(&format!("let l{} = {}\ndo _ = log lg 0 \"n\"\n", sc.nl, lazy_src(b, sc.nl)));
                 sc.nl += 1;
             }
-            Op::Spawn(body) => {
-                s.push_str(&format!("do t{} = spawn (\n", sc.nt));
-                for b in body {
-                    bop_src(b, sc.nt + 1, "        ", &mut s);
-                }
-                s.push_str("        wrap ()\n    )\ndo _ = log lg 0 \"n\"\n");
-                sc.nt += 1;
-            }
-            Op::Resume(t) => s.push_str(&format!("do _ = op_resume lg 0 t{}\n", t)),
         }
     }
     s.push_str("load lg\n");
@@ -661,55 +757,74 @@ fn run_all(cases: &[String], dir: &std::path::Path, workers: usize) -> Vec<Strin
 /// Gives every value-carrying operation a fresh value (1, 2, 3, … in textual order), so that
 /// order and duplication of values are visible in the observations.
 fn renumber(ops: &mut [Op]) {
+    fn go(body: &mut [Bop], k: &mut u32) {
+        for b in body.iter_mut() {
+            match b {
+                Bop::Send(_, v) | Bop::Store(_, v) => {
+                    *k += 1;
+                    *v = *k
+                }
+                Bop::Spawn(_, inner) => go(inner, k),
+                _ => {}
+            }
+        }
+    }
     let mut k = 0u32;
-    let mut next = || {
-        k += 1;
-        k
-    };
     for o in ops.iter_mut() {
         match o {
-            Op::B(Bop::Send(_, v)) | Op::B(Bop::Store(_, v)) | Op::Ref(v) => *v = next(),
+            Op::B(b) => go(std::slice::from_mut(b), &mut k),
+            Op::Ref(v) => {
+                k += 1;
+                *v = k
+            }
             Op::Lazy(b) => {
                 if let LRes::Val(v) = &mut b.res {
-                    *v = next()
+                    k += 1;
+                    *v = k
                 }
             }
-            Op::Spawn(body) => {
-                for b in body.iter_mut() {
-                    match b {
-                        Bop::Send(_, v) | Bop::Store(_, v) => *v = next(),
-                        _ => {}
-                    }
-                }
-            }
-            _ => {}
         }
     }
 }
 
 fn is_creation(o: &Op) -> bool {
-    matches!(o, Op::Ref(_) | Op::Lazy(_) | Op::Spawn(_))
+    matches!(o, Op::Ref(_) | Op::Lazy(_) | Op::B(Bop::Spawn(..)))
+}
+
+/// does some coroutine body resume or spawn a coroutine?
+fn has_nested(ops: &[Op]) -> bool {
+    fn body_has(body: &[Bop]) -> bool {
+        body.iter().any(|b| matches!(b, Bop::Resume(_) | Bop::Spawn(..)))
+    }
+    ops.iter().any(|o| matches!(o, Op::B(Bop::Spawn(_, body)) if body_has(body)))
 }
 
 struct Family {
     name: &'static str,
     prefix: Vec<Op>,
-    /// the operations available in a scope (values are placeholders)
-    alphabet: Box<dyn Fn(Scope) -> Vec<Op>>,
+    /// the operations available in a scope (values are placeholders, labels provisional)
+    alphabet: Box<dyn Fn(&Scope) -> Vec<Op>>,
     quick: usize,
     thorough: usize,
     describe: &'static str,
 }
 
+fn scope_push(sc: &mut Scope, o: &Op) {
+    match o {
+        Op::Ref(_) => sc.nr += 1,
+        Op::Lazy(_) => sc.nl += 1,
+        Op::B(Bop::Spawn(lab, body)) => {
+            sc.vis.push(*lab);
+            sc.next = sc.next.max(*lab + 1).max(max_label(body).map(|m| m + 1).unwrap_or(0));
+        }
+        _ => {}
+    }
+}
+
 fn scope_after(ops: &[Op]) -> Scope {
     let mut sc = Scope::default();
     for o in ops {
-        match o {
-            Op::Ref(_) => sc.nr += 1,
-            Op::Lazy(_) => sc.nl += 1,
-            Op::Spawn(_) => sc.nt += 1,
-            _ => {}
-        }
+        scope_push(&mut sc, o);
     }
     sc
 }
@@ -717,35 +832,31 @@ fn scope_after(ops: &[Op]) -> Scope {
 /// All sequences prefix ++ w, 1 <= |w| <= maxlen, w over the family's alphabet, whose last
 /// operation is not an allocation (an allocation nobody uses is not observable).
 fn enumerate(f: &Family, maxlen: usize, emit: &mut dyn FnMut(Vec<Op>)) {
-    fn go(f: &Family, cur: &mut Vec<Op>, sc: Scope, left: usize, emit: &mut dyn FnMut(Vec<Op>)) {
+    fn go(f: &Family, cur: &mut Vec<Op>, sc: &Scope, left: usize, emit: &mut dyn FnMut(Vec<Op>)) {
         if left == 0 {
             return;
         }
         for o in (f.alphabet)(sc) {
-            let mut sc2 = sc;
-            match &o {
-                Op::Ref(_) => sc2.nr += 1,
-                Op::Lazy(_) => sc2.nl += 1,
-                Op::Spawn(_) => sc2.nt += 1,
-                _ => {}
-            }
+            let mut sc2 = sc.clone();
+            scope_push(&mut sc2, &o);
             let creation = is_creation(&o);
             cur.push(o);
             if !creation {
                 let mut c = cur.clone();
+                normalize_labels(&mut c);
                 renumber(&mut c);
                 emit(c);
             }
-            go(f, cur, sc2, left - 1, emit);
+            go(f, cur, &sc2, left - 1, emit);
             cur.pop();
         }
     }
     let mut cur = f.prefix.clone();
     let sc = scope_after(&cur);
-    go(f, &mut cur, sc, maxlen, emit);
+    go(f, &mut cur, &sc, maxlen, emit);
 }
 
-fn lazy_menu(sc: Scope, with_plain: bool) -> Vec<Op> {
+fn lazy_menu(sc: &Scope, with_plain: bool) -> Vec<Op> {
     let mut v = vec![];
     let bumps: Vec<Option<usize>> = if sc.nr > 0 {
         if with_plain { vec![Some(sc.nr - 1), None] } else { vec![Some(sc.nr - 1)] }
@@ -766,6 +877,7 @@ fn lazy_menu(sc: Scope, with_plain: bool) -> Vec<Op> {
 fn families() -> Vec<Family> {
     use Bop::*;
     let b = |x: Bop| Op::B(x);
+    let spawn = |sc: &Scope, body: Vec<Bop>| Op::B(Spawn(sc.next, body));
     vec![
         Family {
             name: "chan",
@@ -822,12 +934,12 @@ fn families() -> Vec<Family> {
                 for l in 0..sc.nl {
                     v.push(b(Force(l)));
                 }
-                if sc.nt < 2 && sc.nl > 0 {
-                    v.push(Op::Spawn(vec![Force(0)]));
-                    v.push(Op::Spawn(vec![Force(sc.nl - 1), Yield, Force(0), Load(0)]));
+                if sc.vis.len() < 2 && sc.nl > 0 {
+                    v.push(spawn(sc, vec![Force(0)]));
+                    v.push(spawn(sc, vec![Force(sc.nl - 1), Yield, Force(0), Load(0)]));
                 }
-                for t in 0..sc.nt {
-                    v.push(Op::Resume(t));
+                for t in &sc.vis {
+                    v.push(b(Resume(*t)));
                 }
                 v.push(b(Load(0)));
                 v
@@ -841,19 +953,50 @@ fn families() -> Vec<Family> {
             prefix: vec![Op::Ref(0)],
             alphabet: Box::new(move |sc| {
                 let mut v = vec![b(Send(0, 0)), b(Recv(0)), b(Yield), b(Load(0))];
-                if sc.nt < 3 {
-                    v.push(Op::Spawn(vec![Send(0, 0), Yield, Send(0, 0)]));
-                    v.push(Op::Spawn(vec![Recv(0), Store(0, 0), Yield, Recv(0)]));
-                    v.push(Op::Spawn(vec![]));
+                if sc.vis.len() < 3 {
+                    v.push(spawn(sc, vec![Send(0, 0), Yield, Send(0, 0)]));
+                    v.push(spawn(sc, vec![Recv(0), Store(0, 0), Yield, Recv(0)]));
+                    v.push(spawn(sc, vec![]));
                 }
-                for t in 0..sc.nt {
-                    v.push(Op::Resume(t));
+                for t in &sc.vis {
+                    v.push(b(Resume(*t)));
                 }
                 v
             }),
             quick: 4,
             thorough: 5,
             describe: "after `ref`: send/recv on one channel, load, main-thread yield, up to 3 coroutines (producer, consumer storing what it received, empty), resume",
+        },
+        Family {
+            name: "co-threads",
+            prefix: vec![],
+            alphabet: Box::new(move |sc| {
+                let mut v = vec![b(Send(0, 0)), b(Recv(0))];
+                if sc.vis.len() < 3 {
+                    let n = sc.next;
+                    // a producer
+                    v.push(spawn(sc, vec![Send(0, 0), Yield, Send(0, 0)]));
+                    // a coroutine with a coroutine of its own
+                    v.push(spawn(sc, vec![Spawn(n + 1, vec![Send(0, 0), Yield, Send(0, 0)]), Resume(n + 1), Yield, Resume(n + 1), Resume(n + 1)]));
+                    if let Some(&t) = sc.vis.last() {
+                        // a driver: resumes a sibling spawned before it
+                        v.push(spawn(sc, vec![Resume(t), Send(0, 0), Yield, Resume(t), Send(0, 0)]));
+                        // its child resumes the sibling of its parent
+                        v.push(spawn(sc, vec![Spawn(n + 1, vec![Resume(t), Yield, Send(0, 0)]), Resume(n + 1), Resume(t), Resume(n + 1)]));
+                    }
+                    if sc.vis.len() >= 2 {
+                        let (t0, t1) = (sc.vis[0], sc.vis[sc.vis.len() - 1]);
+                        v.push(spawn(sc, vec![Resume(t0), Resume(t1), Yield, Resume(t1), Resume(t0)]));
+                    }
+                }
+                for t in &sc.vis {
+                    v.push(b(Resume(*t)));
+                }
+                v
+            }),
+            quick: 5,
+            thorough: 6,
+            describe: "coroutines operating on coroutines: send/recv on one channel, resume from the main thread, up to 3 main-level coroutines out of {producer; coroutine that spawns, resumes and outlives a producer of its own; driver resuming the sibling spawned before it; coroutine whose child resumes the parent's sibling; driver of two siblings}",
         },
         Family {
             name: "all",
@@ -873,40 +1016,56 @@ fn families() -> Vec<Family> {
                 for l in 0..sc.nl {
                     v.push(b(Force(l)));
                 }
-                if sc.nt < 3 {
-                    v.push(Op::Spawn(vec![Send(0, 0), Yield, Recv(1)]));
+                if sc.vis.len() < 3 {
+                    v.push(spawn(sc, vec![Send(0, 0), Yield, Recv(1)]));
                     if sc.nl > 0 {
-                        v.push(Op::Spawn(vec![Force(sc.nl - 1), Send(1, 0), Yield, Force(0)]));
+                        v.push(spawn(sc, vec![Force(sc.nl - 1), Send(1, 0), Yield, Force(0)]));
                     }
                     if sc.nr > 0 {
-                        v.push(Op::Spawn(vec![Load(sc.nr - 1), Yield, Store(0, 0)]));
+                        v.push(spawn(sc, vec![Load(sc.nr - 1), Yield, Store(0, 0)]));
+                    }
+                    if let Some(&t) = sc.vis.last() {
+                        v.push(spawn(sc, vec![Resume(t), Send(1, 0), Yield, Resume(t)]));
                     }
                 }
-                for t in 0..sc.nt {
-                    v.push(Op::Resume(t));
+                for t in &sc.vis {
+                    v.push(b(Resume(*t)));
                 }
                 v
             }),
             quick: 4,
             thorough: 5,
-            describe: "the whole alphabet {send, recv, ref, load, store, lazy (up to 8 bodies), force, spawn (3 bodies), resume, yield} on 2 channels, up to 2 references, 2 lazies, 3 coroutines",
+            describe: "the whole alphabet {send, recv, ref, load, store, lazy (up to 8 bodies), force, spawn (4 bodies, one resuming a sibling), resume, yield} on 2 channels, up to 2 references, 2 lazies, 3 coroutines",
         },
     ]
 }
 
-fn random_bop(rng: &mut Rng, sc: Scope) -> Bop {
-    loop {
-        let b = match rng.below(10) {
+/// A random coroutine body; `vis` = handles visible where the body is created.
+fn random_body(rng: &mut Rng, nr: usize, nl: usize, vis: &[usize], next: &mut usize, depth: u32, maxlen: u64) -> Vec<Bop> {
+    let n = rng.below(maxlen + 1) as usize;
+    let mut vis = vis.to_vec();
+    let mut body = vec![];
+    while body.len() < n {
+        let b = match rng.below(14) {
             0 | 1 => Bop::Send(rng.below(2) as usize, 0),
             2 | 3 => Bop::Recv(rng.below(2) as usize),
-            4 if sc.nr > 0 => Bop::Load(rng.below(sc.nr as u64) as usize),
-            5 if sc.nr > 0 => Bop::Store(rng.below(sc.nr as u64) as usize, 0),
-            6 | 7 | 8 if sc.nl > 0 => Bop::Force(rng.below(sc.nl as u64) as usize),
-            9 => Bop::Yield,
+            4 if nr > 0 => Bop::Load(rng.below(nr as u64) as usize),
+            5 if nr > 0 => Bop::Store(rng.below(nr as u64) as usize, 0),
+            6 | 7 if nl > 0 => Bop::Force(rng.below(nl as u64) as usize),
+            8 | 9 => Bop::Yield,
+            10 | 11 | 12 if !vis.is_empty() => Bop::Resume(*rng.pick(&vis)),
+            13 if depth > 0 => {
+                let lab = *next;
+                *next += 1;
+                let inner = random_body(rng, nr, nl, &vis, next, depth - 1, 4);
+                vis.push(lab);
+                Bop::Spawn(lab, inner)
+            }
             _ => continue,
         };
-        return b;
+        body.push(b);
     }
+    body
 }
 
 fn random_case(rng: &mut Rng, len: usize, max_cells: usize, max_threads: usize) -> Vec<Op> {
@@ -914,10 +1073,7 @@ fn random_case(rng: &mut Rng, len: usize, max_cells: usize, max_threads: usize) 
     let mut sc = Scope::default();
     while ops.len() < len {
         let o = match rng.below(16) {
-            0 if sc.nr < max_cells => {
-                sc.nr += 1;
-                Op::Ref(0)
-            }
+            0 if sc.nr < max_cells => Op::Ref(0),
             1 | 2 if sc.nl < max_cells => {
                 let bump = if sc.nr > 0 && rng.chance(2, 3) { Some(rng.below(sc.nr as u64) as usize) } else { None };
                 let res = match rng.below(6) {
@@ -926,21 +1082,33 @@ fn random_case(rng: &mut Rng, len: usize, max_cells: usize, max_threads: usize) 
                     4 => LRes::Force(sc.nl),
                     _ => LRes::Force(rng.below(sc.nl as u64 + 1) as usize),
                 };
-                sc.nl += 1;
                 Op::Lazy(LBody { bump, res })
             }
-            3 | 4 if sc.nt < max_threads => {
-                let n = rng.below(6) as usize;
-                let body = (0..n).map(|_| random_bop(rng, sc)).collect();
-                sc.nt += 1;
-                Op::Spawn(body)
+            3 | 4 if sc.vis.len() < max_threads => {
+                let lab = sc.next;
+                let mut next = lab + 1;
+                let body = random_body(rng, sc.nr, sc.nl, &sc.vis, &mut next, 2, 5);
+                Op::B(Bop::Spawn(lab, body))
             }
-            5 | 6 | 7 | 8 if sc.nt > 0 => Op::Resume(rng.below(sc.nt as u64) as usize),
-            9..=15 => Op::B(random_bop(rng, sc)),
+            5 | 6 | 7 | 8 if !sc.vis.is_empty() => Op::B(Bop::Resume(*rng.pick(&sc.vis))),
+            9..=15 => {
+                let b = match rng.below(10) {
+                    0 | 1 => Bop::Send(rng.below(2) as usize, 0),
+                    2 | 3 => Bop::Recv(rng.below(2) as usize),
+                    4 if sc.nr > 0 => Bop::Load(rng.below(sc.nr as u64) as usize),
+                    5 if sc.nr > 0 => Bop::Store(rng.below(sc.nr as u64) as usize, 0),
+                    6 | 7 | 8 if sc.nl > 0 => Bop::Force(rng.below(sc.nl as u64) as usize),
+                    9 => Bop::Yield,
+                    _ => continue,
+                };
+                Op::B(b)
+            }
             _ => continue,
         };
+        scope_push(&mut sc, &o);
         ops.push(o);
     }
+    normalize_labels(&mut ops);
     renumber(&mut ops);
     ops
 }
@@ -953,6 +1121,13 @@ fn main() {
     }
     if argv.len() >= 3 && argv[1] == "confirm" {
         return confirm_main(&argv[2]);
+    }
+    if argv.len() >= 3 && argv[1] == "runfile" {
+        // evaluate a hand-written Gluon program with c17lib loaded (debugging aid)
+        let src = std::fs::read_to_string(&argv[2]).expect("file");
+        let vm = new_vm();
+        println!("{}", eval(&vm, &src).0);
+        return;
     }
     if argv.len() >= 3 && argv[1] == "source" {
         // print the Gluon program of a case (debugging aid)
@@ -1031,7 +1206,7 @@ fn main() {
 
     // random sequences up to length 30
     let mut rng = Rng::new(args.seed);
-    let nrand: usize = args.extra.get("random").and_then(|s| s.parse().ok()).unwrap_or(if args.thorough() { 20000 } else { 4000 });
+    let nrand: usize = args.extra.get("random").and_then(|s| s.parse().ok()).unwrap_or(if args.thorough() { 20000 } else { 3000 });
     if only.is_none() || only.map(|s| s == "random").unwrap_or(false) {
         for i in 0..nrand {
             let len = 4 + rng.below(27) as usize;
@@ -1126,9 +1301,12 @@ fn main() {
                 Op::B(Bop::Yield) => "op:yield",
                 Op::Ref(..) => "op:ref",
                 Op::Lazy(..) => "op:lazy",
-                Op::Spawn(..) => "op:spawn",
-                Op::Resume(..) => "op:resume",
+                Op::B(Bop::Spawn(..)) => "op:spawn",
+                Op::B(Bop::Resume(..)) => "op:resume",
             });
+        }
+        if has_nested(c) {
+            hist.add("feature:coroutine-resumes-or-spawns-coroutine");
         }
         for tok in results[i].split_whitespace() {
             if let Some((_, o)) = tok.split_once(':') {
